@@ -5,6 +5,7 @@ package main
 
 import (
 	"bytes"
+	"strings"
 	"crypto/ecdsa"
 	"fmt"
 
@@ -231,7 +232,20 @@ func runRegCase(seed uint64, nOps int, stats map[string]int) (V, V) {
 					rec = L(Bb(crypto.PubkeyToAddress(*pub).Bytes()))
 				}
 			}
-			msg := &types.MsgDelegateKeys{ValidatorAddress: val.String(), OrchestratorAddress: orchAddr(oi).String(), ExternalAddress: eth.Hex(), EthSignature: sig, ChainId: chain}
+			// the orchestrator may be any account, also another validator's operator account
+			orch := orchAddr(oi)
+			if rng.Chance(1, 5) {
+				orch = sdk.AccAddress(valAddr(rng.Intn(nVals)))
+			}
+			// spellings: lower-case hex instead of the EIP-55 checksum form, upper-case bech32
+			ethStr, orchStr := eth.Hex(), orch.String()
+			if rng.Chance(1, 4) {
+				ethStr = strings.ToLower(ethStr)
+			}
+			if rng.Chance(1, 8) {
+				orchStr = strings.ToUpper(orchStr)
+			}
+			msg := &types.MsgDelegateKeys{ValidatorAddress: val.String(), OrchestratorAddress: orchStr, ExternalAddress: ethStr, EthSignature: sig, ChainId: chain}
 			if msg.ValidateBasic() != nil {
 				continue
 			}
@@ -240,7 +254,7 @@ func runRegCase(seed uint64, nOps int, stats map[string]int) (V, V) {
 				return err
 			})
 			stats[fmt.Sprintf("setkeys_code%d", code)]++
-			record(L(I(1), B(chain), B(val.String()), B(orchAddr(oi).String()), Bb(eth.Bytes()), rec), code)
+			record(L(I(1), B(chain), B(val.String()), B(orch.String()), Bb(eth.Bytes()), rec), code)
 			if vi < nVals && rng.Chance(2, 3) {
 				seqs[vi]++ // the account's sequence moves on with every transaction it signs
 				setVals()
